@@ -38,10 +38,24 @@ theorem PtrIn.mono {A B : List Nat} (h : ∀ a, a ∈ A → a ∈ B) : ∀ {v}, 
   | .unit, _ => trivial
   | .pair _ _, hv => ⟨PtrIn.mono h hv.1, PtrIn.mono h hv.2⟩
 
-/-- the shape of contract K for a computation `c` taking argument values and a state -/
+/-- what a K-computation preserves: the new heap holds a tree with the same in-order list of addresses, and no key
+    field of any node (in the tree or not) has changed -/
+structure Pres (st st' : St) (t t' : PT) : Prop where
+  holds : Holds st' t'
+  addrs : t'.addrs = t.addrs
+  keys : ∀ a, (st'.h a).key = (st.h a).key
+
+theorem Pres.refl {st : St} {t : PT} (h : Holds st t) : Pres st st t t := ⟨h, rfl, fun _ => rfl⟩
+theorem Pres.trans {st st1 st2 : St} {t t1 t2 : PT} (h1 : Pres st st1 t t1) (h2 : Pres st1 st2 t1 t2) :
+    Pres st st2 t t2 := ⟨h2.holds, h2.addrs.trans h1.addrs, fun a => (h2.keys a).trans (h1.keys a)⟩
+theorem Pres.same {st st' : St} {t t' : PT} (h : Pres st st' t t') : SameAddrs t t' :=
+  fun a => by rw [h.addrs]
+
+/-- the shape of contract K for a computation `c` taking argument values and a state (the first conjunct repeats
+    `Pres.holds` for convenience) -/
 def SpecOf (c : List Val → St → Res (Val × St)) : Prop :=
   ∀ args st v st' t, Holds st t → (∀ x ∈ args, PtrIn t.addrs x) → c args st = .ok (v, st') →
-    ∃ t', Holds st' t' ∧ SameAddrs t t' ∧ PtrIn t'.addrs v
+    ∃ t', Holds st' t' ∧ Pres st st' t t' ∧ PtrIn t'.addrs v
 
 /-- contract K for procedure `fn` under the call handler `callH` -/
 def SpecK (callH : CallH PName) (fn : PName) : Prop := SpecOf (callH fn)
@@ -56,7 +70,7 @@ def isRot : PName → Bool
   | .rotateLeft | .rotateRight => true
   | _ => false
 
-/-! syntactic safety: no assignment to a pointer field or to `rb.root`, no allocation, calls to K-procedures only -/
+/-! syntactic safety: no assignment to a pointer field, to a key or to `rb.root`, no allocation, calls to K-procedures only -/
 
 def safeE : Expr PName → Bool
   | .nil | .int _ | .bool _ | .err _ | .unit | .var _ | .root | .size => true
@@ -73,11 +87,16 @@ def ptrFld : Fld → Bool
   | .left | .right | .parent => true
   | _ => false
 
+/-- the fields a safe procedure may assign: colour and value (not the pointers, not the key) -/
+def plainFld : Fld → Bool
+  | .color | .value => true
+  | _ => false
+
 def safeS : Stmt PName → Bool
   | .skip | .continue_ | .break_ => true
   | .seq a b => safeS a && safeS b
   | .assign _ e => safeE e
-  | .setField p f e => !ptrFld f && safeE p && safeE e
+  | .setField p f e => plainFld f && safeE p && safeE e
   | .setRoot _ => false
   | .setSize e => safeE e
   | .ite c t e => safeE c && safeS t && safeS e
